@@ -143,6 +143,24 @@ def run(ctx, rep):
             if root.item_name not in known and "stateless_writer" not in root.file:
                 total += R.sends_guarded_by_first_relevant(fx, ob, adder(rep, ob), "R04b")
     rep.floor("R04b", total, 7, "DATA / DATA_FRAG constructions for reader proxies")
+    # R04e: the history a late TRANSIENT_LOCAL reader receives is the most recent `depth` samples: every KEEP_LAST eviction in
+    # the DCPS writer removes the oldest sample of the instance (pop_front), on the direct and on the deferred write path alike
+    ev = 0
+    for ob in fx.bodies.values():
+        if not ob.is_fn_like() or "::tests::" in ob.sname or not ob.sum_calls:
+            continue
+        if not any(x.endswith(("VecDeque::pop_front", "VecDeque::pop_back")) for x in ob.sum_calls):
+            continue
+        if "data_writer_entity" not in ob.sname and "writer_methods" not in ob.sname:
+            continue
+        of = FnCtx(ob)
+        for bb, t in of.calls("VecDeque::pop_front", "VecDeque::pop_back"):
+            if not E.mentions_field(of.arg(t, 0), "samples"):
+                continue
+            ev += 1
+            adder(rep, ob)("R04e", "KEEP_LAST eviction removes the oldest retained sample of the instance", t.callee.method() == "pop_front",
+                           "%s on the instance's retained samples: the newest sample is dropped and a late-joining TRANSIENT_LOCAL reader receives stale history" % t.callee.method(), t.line)
+    rep.floor("R04e", ev, 2, "evictions from the writer's retained samples")
 
     def guard(e, outcome, ce):
         e0 = E.strip_casts(e)
